@@ -511,6 +511,24 @@ fn op_insert_sketch_off<S: HK>(cfg: &Cfg, cls: u8) {
     std::mem::forget(st);
 }
 
+/// invalidate_all followed by a refill: the popularity estimates survive (C14: only an aging step lowers an
+/// estimate; invalidation records nothing and must not cause the sketch to be re-sized and zeroed later).
+fn op_invalidate_all_then_insert<S: HK>(cfg: &Cfg) {
+    let mut st = build::<S>(cfg);
+    let f0 = st.c.frequency_sketch.frequency(S::h(0));
+    let f3 = st.c.frequency_sketch.frequency(S::h(3));
+    st.c.invalidate_all();
+    chk!(st.c.frequency_sketch.frequency(S::h(0)) == f0 && st.c.frequency_sketch.frequency(S::h(3)) == f3, "C14: invalidate_all changed a popularity estimate");
+    st.c.insert(0u8, Val { cls: 0, data: kani::any() });
+    st.c.insert(1u8, Val { cls: 0, data: kani::any() });
+    chk!(st.c.frequency_sketch.frequency(S::h(0)) == f0 && st.c.frequency_sketch.frequency(S::h(3)) == f3,
+         "C14,C13: popularity estimates changed across invalidate_all + refill without any recorded lookup or aging step (sketch re-sized and zeroed)");
+    chk!(st.c.cache.get(&0u8).is_some() && st.c.cache.get(&1u8).is_some() && st.c.entry_count == 2, "C03,C07: refill after invalidate_all");
+    kani::cover!(f0 > 0, "key 0 was popular");
+    kani::cover!(true, "end of comparison reached");
+    std::mem::forget(st);
+}
+
 fn op_contains<S: HK>(cfg: &Cfg, j: usize, real_purge: bool) {
     let mut st = build::<S>(cfg);
     let mut e = st.g;
@@ -785,6 +803,7 @@ uh!(insert_upd0_n2_full, 6, op_insert::<IdH>(&cfg(2, Some(2), false, W1, false, 
 uh!(insert_upd1_n2_full, 6, op_insert::<IdH>(&cfg(2, Some(2), false, W1, false, false, WO_ID, false), 1, 0));
 uh!(invalidate0_n2, 6, op_invalidate::<IdH>(&cfg(2, Some(2), false, W1, false, false, WO_ID, false), 0));
 uh!(invalidate_absent_n2, 6, op_invalidate::<IdH>(&cfg(2, Some(2), false, W1, false, false, WO_ID, false), 2));
+uh!(invalidate_all_then_refill_n2, 8, op_invalidate_all_then_insert::<IdH>(&cfg(2, Some(2), false, W1, false, false, WO_ID, false)));
 uh!(invalidate_all_n2, 6, op_invalidate_all::<IdH>(&cfg(2, Some(2), false, W1, false, false, WO_ID, false)));
 uh!(invalidate_if_n2_m1111, 6, op_invalidate_if::<IdH>(&cfg(2, Some(2), false, W1, false, false, WO_ID, false), Some(0b1111)));
 uh!(invalidate_if_n2_m0001, 6, op_invalidate_if::<IdH>(&cfg(2, Some(2), false, W1, false, false, WO_ID, false), Some(0b0001)));
